@@ -2,7 +2,7 @@
     Property theorems only; each is closed by [exact] of a lemma proved elsewhere. *)
 From Coq Require Import List ZArith NArith String.
 From CN Require Import Base.Lts Base.LockOrder Gen.LockGraph_peers Peers.Locks Peers.Pool Peers.PoolProofs
-  Peers.Manager Peers.ManagerProofs.
+  Peers.Manager Peers.ManagerProofs Peers.Fine Peers.FineProofs.
 Import ListNotations.
 Open Scope N_scope.
 
@@ -80,7 +80,7 @@ Theorem C17_waiters_nonvacuous :
   swait s 0%nat = WHolding 0 /\ swait s 1%nat = WHolding 1 /\ (0 < pcount (spool s))%Z.
 Proof. exact waiters_nonvacuous. Qed.
 
-(** ---- the manager (manager.go), for every sequence [es] of manager events (shrex-sub notifications, header
+(** ---- the manager (manager.go) with every call as ONE event, for every sequence [es] of manager events (shrex-sub notifications, header
     arrivals, Peer calls, request results, discovery updates, disconnects, GC rounds, clock ticks), whatever order
     the implementation's map iterations take *)
 
@@ -105,6 +105,67 @@ Print Assumptions C17_blacklisted_never_offered.
 Theorem C17_done_blacklists : forall m h x src, m_enable m = true -> is_blacklisted (done m h x src DBlacklist) x = true.
 Proof. exact done_blacklists. Qed.
 Print Assumptions C17_done_blacklists.
+
+(** ---- the manager at LOCK GRANULARITY (Peers/Fine.v).  The Manager holds no lock across a call; here every call in
+    progress is a thread, one event [FStep t] is ONE critical section of thread [t] (one access to shared state under
+    Manager.lock / pool.m / the gater's lock / an atomic), pools are heap objects that survive their map entry, and
+    [es], [es'] range over ALL interleavings of the steps of any number of concurrent calls ([FSpawn] begins a call,
+    [FWake] hands a blocked Peer call a peer from next(), [FAge]/[FTick] are pool ageing and the clock).
+    [finit true ...] = the current code (removeIfUnreachable tests isBlacklistedPeer || !nodes.has). *)
+
+(** once a peer is blacklisted (BlockPeer has taken effect), a Peer call that begins afterwards never returns it, from
+    either pool, fast path or blocking path, whatever runs between its steps *)
+Theorem C17_fine_blacklisted_never_offered : forall enable self ttl es es' t x src,
+  black (fs_sh (frun (finit true enable self ttl) es)) x = true ->
+  fs_thr (frun (finit true enable self ttl) es) t = TNone ->
+  fs_thr (frun (finit true enable self ttl) (es ++ es')) t <> TDone (OP (PRes x src)).
+Proof. exact fine_blacklisted_never_offered. Qed.
+Print Assumptions C17_fine_blacklisted_never_offered.
+
+(** ... which rests on the blacklist test in removeIfUnreachable: with [!nodes.has(p)] alone ([finit false]) a
+    discovery add that lands between nodes.remove and BlockPeer of the peer's blacklisting makes the next Peer call for a
+    hash the peer announced return it (the one-event-per-call model cannot express this history) *)
+Theorem C17_blacklisted_never_offered_without_blacklist_test_refuted : exists es es' t x src,
+  black (fs_sh (frun (finit false true 9 10) es)) x = true /\
+  fs_thr (frun (finit false true 9 10) es) t = TNone /\
+  fs_thr (frun (finit false true 9 10) (es ++ es')) t = TDone (OP (PRes x src)).
+Proof. exact unguarded_refuted. Qed.
+Print Assumptions C17_blacklisted_never_offered_without_blacklist_test_refuted.
+
+(** with blacklisting enabled, a misbehaviour report that has returned did blacklist the peer, whatever ran between
+    nodes.remove and BlockPeer *)
+Theorem C17_fine_done_blacklists : forall guard self ttl es es' t h x src o,
+  fs_thr (frun (finit guard true self ttl) es) t = TNone ->
+  fs_thr (frun (finit guard true self ttl) (es ++ FSpawn t (CDone h x src DBlacklist) :: es')) t = TDone o ->
+  black (fs_sh (frun (finit guard true self ttl) (es ++ FSpawn t (CDone h x src DBlacklist) :: es'))) x = true.
+Proof. exact fine_done_blacklists. Qed.
+Print Assumptions C17_fine_done_blacklists.
+
+(** a peer is in the general pool only if a discovery add for it has begun, or it began to announce a hash whose
+    confirmation (header arrival / a getter holding the header) has begun *)
+Theorem C17_fine_no_unvalidated_promotion : forall guard enable self ttl es x,
+  has (h_nodes (fs_sh (frun (finit guard enable self ttl) es))) x = true ->
+  (exists t, In (FSpawn t (CUpdate x true)) es) \/
+  exists h, (exists t height, In (FSpawn t (CValidate x h height)) es) /\
+            (exists t height order, In (FSpawn t (CHeader h height order)) es \/ In (FSpawn t (CPeer h height order)) es).
+Proof. exact fine_no_unvalidated_promotion. Qed.
+Print Assumptions C17_fine_no_unvalidated_promotion.
+
+(** the schedules the harness drives on the real Manager (park a call at a named point, run others, resume) are such
+    histories *)
+Theorem C17_harness_schedules_are_histories : forall hs s, exists es, hrun s hs = frun s es.
+Proof. exact hrun_reachable. Qed.
+Print Assumptions C17_harness_schedules_are_histories.
+
+(** non-vacuity: the interleaving above on the current code reaches "blacklisted AND in the general pool AND in its
+    hash pool"; the next Peer call drops the peer from both pools and returns nothing *)
+Theorem C17_fine_nonvacuous :
+  let s := frun (finit true true 9 10) gap_prefix in
+  black (fs_sh s) 0 = true /\ has (h_nodes (fs_sh s)) 0 = true /\ has (pool_of (fs_sh s) 0) 0 = true /\
+  fs_thr s 1%nat = TDone (OP (PRes 0 SShrexSub)) /\ fs_thr s 4%nat = TNone /\
+  let s' := frun s gap_suffix in
+  fs_thr s' 4%nat = TDone (OP PWait) /\ has (h_nodes (fs_sh s')) 0 = false /\ has (pool_of (fs_sh s') 0) 0 = false.
+Proof. exact fine_nonvacuous. Qed.
 
 Theorem C17_manager_nonvacuous :
   let m := mrun (new_mgr true 9 10) ex_mhistory in
